@@ -146,6 +146,8 @@ def run(index, rep, tier):
         if nset == 0:
             rep.ob("R18.2", "src/dendropy/model", "no set-typed locals in the simulators", True)
 
+    with rep.section("R18.2 module state"):
+        module_state_rule(index, rep, "R18.2", SIM_MODULES)
     with rep.section("R18.3"):
         _distinct_labels_rule(index, rep)
     with rep.section("R18.4"):
